@@ -309,7 +309,10 @@ func (b *RecBackend) maybePanic(cb string) {
 		panic("verif: scripted backend panic in " + cb)
 	}
 }
-func (s *recSession) Logout() error { s.b.add(L(A("logout"))); return nil }
+// Logout always reports an error: the server has nothing to do with it but to go on ending the session.
+func (s *recSession) Logout() error { s.b.add(L(A("logout"))); return errLogout }
+
+var errLogout = errors.New("verif: Logout reports an error")
 
 func optStr(p *string) *Sx {
 	if p == nil {
